@@ -637,6 +637,18 @@ func c15Usable(c *fw.Ctx, rep func(sig, desc string)) {
 		if s == nil {
 			return
 		}
+		// the accessor gives what the field holds, on a freshly constructed service too
+		c.Eval(1)
+		if acc := s.GetCharacteristics(); len(acc) != len(s.Characteristics) {
+			rep("unusable/accessor-differs/"+owner, fmt.Sprintf("%s: GetCharacteristics() returns %d characteristics, the service holds %d", owner, len(acc), len(s.Characteristics)))
+		} else {
+			for i := range acc {
+				if acc[i] != s.Characteristics[i] {
+					rep("unusable/accessor-differs/"+owner, fmt.Sprintf("%s: GetCharacteristics()[%d] is not the characteristic the service holds at that position", owner, i))
+					break
+				}
+			}
+		}
 		names, vals := catalog.Fields(sv)
 		claimed := map[*characteristic.Characteristic]bool{}
 		for _, fv := range vals {
@@ -701,7 +713,7 @@ func init() {
 	fw.Register(&fw.Check{
 		ID:          "C15",
 		Level:       "exploration",
-		Rule:        "depth-1 exhaustive enumeration of the finite catalog: every exported New* constructor found by go/parser in /repo's characteristic, service and accessory packages at check time is called; every characteristic and service entry of gen/metadata.json is matched by type id and compared field by field (format, permissions, unit, min/max/step with case-insensitive keys, default value type and range, required characteristics, duplicate types, Type* constants); all services and accessories are then constructed again, kept alive together and re-inspected (a constructor must not disturb objects built before it). A second worker process repeats everything in a program where application code ran first: vendor characteristics whose bounds went through float32 next to every catalog bound, vendor type ids sharing their first group with each catalog type, and every constructor called from inside a change handler. Every service of every accessory constructor's result holds the characteristics required for its type. Usability: every characteristic takes and gives back both bounds of its range given as int and as float64 (locally and, when writable, from a connection) and strings / tlv8 / data payloads of 0, 1, 48, 49, 64, 65, 300 bytes; a typed field of a service / accessory constructor's result refers to the object of its type in the generic list (not to a second object while the listed one is referred to by no field). distinct_nontrivial = distinct constructors that returned a usable object",
+		Rule:        "depth-1 exhaustive enumeration of the finite catalog: every exported New* constructor found by go/parser in /repo's characteristic, service and accessory packages at check time is called; every characteristic and service entry of gen/metadata.json is matched by type id and compared field by field (format, permissions, unit, min/max/step with case-insensitive keys, default value type and range, required characteristics, duplicate types, Type* constants); all services and accessories are then constructed again, kept alive together and re-inspected (a constructor must not disturb objects built before it). A second worker process repeats everything in a program where application code ran first: vendor characteristics whose bounds went through float32 next to every catalog bound, vendor type ids sharing their first group with each catalog type, and every constructor called from inside a change handler. Every service of every accessory constructor's result holds the characteristics required for its type. Usability: every characteristic takes and gives back both bounds of its range given as int and as float64 (locally and, when writable, from a connection) and strings / tlv8 / data payloads of 0, 1, 48, 49, 64, 65, 300 bytes; GetCharacteristics() of a fresh service returns what the service holds; a typed field of a service / accessory constructor's result refers to the object of its type in the generic list (not to a second object while the listed one is referred to by no field). distinct_nontrivial = distinct constructors that returned a usable object",
 		Shards:      func(string) int { return 2 },
 		Run:         c15Run,
 		Replay:      func(c *fw.Ctx, raw json.RawMessage) { c15Run(c) },
